@@ -1,4 +1,4 @@
-module verif/checker
+module golang.org/x/tools/verifchecker
 
 go 1.26.0
 
